@@ -7,7 +7,10 @@
 
     scenario := phase {';' phase}
     phase    := acts ['/' faults]
-    acts     := { 'p' | 'x' | 'k' | 'K' }     p: a call that is never cancelled; x: a call whose context MAY be
+    acts     := { 'p' | 'n' | 'x' | 'k' | 'K' } n (first phase only): the version negotiation of `DialContext` — the
+                                              dial has been made and its connection installed, then a call
+                                              like p;
+                                              p: a call that is never cancelled; x: a call whose context MAY be
                                               cancelled at any step; all calls of a phase are issued
                                               concurrently (any order); k: `Close()` at any time during the
                                               phase; K: `Close()` after every call of the phase has returned
@@ -37,6 +40,7 @@ structure Phase where
   fW : Nat
   fF : Nat
   fD : Nat
+  neg : Bool := false  -- the phase's first call is `DialContext`'s negotiation (a fresh connection exists)
   deriving Repr, Inhabited
 
 abbrev Scen := List Phase
@@ -68,8 +72,10 @@ def load (sc : Scen) (i : Nat) (s : SSt) : SSt :=
                      okP := 0, errP := 0, okX := 0, errX := 0 }
 
 def init (sc : Scen) : SSt :=
-  load sc 0 { st := CliConn.init, ph := 0, remP := 0, remX := 0, cur := 0, fE := 0, fR := 0, fW := 0, fF := 0,
-              fD := 0, okP := 0, errP := 0, okX := 0, errX := 0, outs := [], dials := 0 }
+  let neg := (sc.head?.map (·.neg)).getD false
+  load sc 0 { st := if neg then freshConn CliConn.init else CliConn.init, ph := 0, remP := 0, remX := 0, cur := 0,
+              fE := 0, fR := 0, fW := 0, fF := 0,
+              fD := 0, okP := 0, errP := 0, okX := 0, errX := 0, outs := [], dials := if neg then 1 else 0 }
 
 /-- lift an inner step, observing returns and dials. -/
 def observe (s : SSt) (t : St) : SSt :=
@@ -129,9 +135,9 @@ def parsePhase (s : String) : Option Phase :=
     | _ => ("?", "")
   let ac := a.toList
   let fc := f.toList
-  if ac.all (fun c => c == 'p' || c == 'x' || c == 'k' || c == 'K') ∧
+  if ac.all (fun c => c == 'p' || c == 'n' || c == 'x' || c == 'k' || c == 'K') ∧
      fc.all (fun c => c == 'e' || c == 'r' || c == 'w' || c == 'f' || c == 'd') ∧ !ac.isEmpty then
-    some { plain := count ac 'p', canc := count ac 'x',
+    some { plain := count ac 'p' + count ac 'n', canc := count ac 'x', neg := ac.contains 'n',
            close := if ac.contains 'k' then 1 else if ac.contains 'K' then 2 else 0,
            fE := count fc 'e', fR := count fc 'r', fW := count fc 'w', fF := count fc 'f', fD := count fc 'd' }
   else none
